@@ -74,6 +74,7 @@ class Run:
         self.prep = prep
         self.idx = {t: i + 1 for i, t in enumerate(prep.txoids)}
         self.conn = sqlite3.connect(os.path.join(self.dir, 'blockchain.db'))
+        self.initial_utxos = sorted(self.env.run(self.env.account.get_utxos()), key=lambda o: (o.tx_ref.id, o.position))
         self.evs = []
         self.exceptions = []
 
@@ -96,8 +97,14 @@ class Run:
         self.evs.append(e)
 
     def build_coro(self, amount):
-        from lbry.wallet.transaction import Transaction, Output
+        from lbry.wallet.transaction import Transaction, Output, Input
         acc = self.env.account
+        if isinstance(amount, tuple):
+            # ('pre', k, pay): the caller hands over wallet output k (its k-th unspent output at the start) as an input that
+            # alone covers the payment - it must be held like a selected one while the build is pending
+            _, k, pay = amount
+            txo = self.initial_utxos[k % len(self.initial_utxos)]
+            return Transaction.create([Input.spend(txo)], [Output.pay_pubkey_hash(int(pay), b'\x08' * 20)], [acc], acc)
         if amount == 0:     # nothing requested: the balancing loop runs several rounds over coins barely worth their fee
             return Transaction.create([], [], [acc], acc)
         return Transaction.create([], [Output.pay_pubkey_hash(int(amount), b'\x07' * 20)], [acc], acc)
@@ -199,10 +206,24 @@ def leg_c(ctx):
         nb = rng.choice([2, 2, 3, 3, 4, 6, 8, 12])
         total = sum(prep.amounts)
         demands = [int(rng.uniform(0.05, 1.6) * total / nb) for _ in range(nb)]
-        if prep is preps[4]:
-            demands = [0 if rng.random() < 0.8 else 600 for _ in range(nb)]
         arrivals = [0] + [rng.randrange(0, 160) for _ in range(nb - 1)]
         endings = [(rng.choice(['broadcast', 'abandon']), rng.randrange(0, 60)) for _ in range(nb)]
+        if prep is preps[4]:
+            demands = [0 if rng.random() < 0.8 else 600 for _ in range(nb)]
+        elif rng.random() < 0.35:
+            # some builds come with a caller-chosen input (each a different wallet output) that covers their small payment; they
+            # arrive first and are finished - still pending, not broadcast - before the builds that select coins start, so
+            # that the caller never hands over an output a concurrent selection could already have taken
+            ks = rng.sample(range(len(prep.amounts)), k=min(len(prep.amounts), nb))
+            npre = 0
+            for b in range(nb):
+                if rng.random() < 0.5 and npre < len(ks) - 1:
+                    demands[b] = ('pre', ks[npre], max(1000, int(sorted(prep.amounts)[0] * 0.2)))
+                    arrivals[b] = rng.randrange(0, 5)
+                    endings[b] = (endings[b][0], 400 + rng.randrange(0, 200))
+                    npre += 1
+                else:
+                    arrivals[b] = 250 + rng.randrange(0, 160)
         plans.append((prep, rng.choice(STRATS), demands, arrivals, endings))
     traces, meta = [], []
     exc_count = {}
@@ -217,7 +238,7 @@ def leg_c(ctx):
         for e in run.exceptions:
             exc_count[e] = exc_count.get(e, 0) + 1
         built = sum(1 for e in tr['ev'] if e['event'] == 'Built')
-        ctx.count((strat, tuple(demands), tuple(arrivals), tuple(endings)), nontrivial=built >= 2)
+        ctx.count((strat, repr(demands), tuple(arrivals), tuple(endings)), nontrivial=built >= 2)
         if k in (3, len(plans) - 1):
             ctx.sample({'plan': meta[-1], 'history': [{kk: vv for kk, vv in e.items() if kk != 'obs'} | {'reserved': e['obs']['reserved']}
                                                      for e in tr['ev'] if e['event'] != 'Tick']})
